@@ -147,6 +147,45 @@ def k1_probes():
         yield {"prog": M.program(n, R, splitters=["uid"]), "inputs": [M.enc_inputs({"uid": "u1"})], "shape": "k1"}
 
 
+def fixed_programs():
+    """hand-picked shapes that random generation reaches rarely"""
+    I, L, T = M.ident, M.lit_int, M.tup
+    R0 = M.ret([(M.lit_str("in"), "1"), (M.lit_str("in2"), "1")])
+    R1 = M.ret([(M.lit_str("out"), "1")])
+
+    def prog(pred, splitters=None, salt=None, name="exp"):
+        return M.program(name, M.if_([(pred, R0)], R1), salt=salt, splitters=splitters)
+
+    envs = [{"x": (1, 2), "y": 1, "a": 1, "b": 2, "c": 3, "uid": "u1", "index": 1, "order_id": 2},
+            {"x": 7, "y": (1, (2, 3)), "a": 2, "b": 3, "c": 4, "uid": "u2", "index": 0, "order_id": 0}]
+    shapes = [
+        # identifiers that occur ONLY inside a nested tuple / only inside a tuple
+        prog(M.cmp_(I("x"), "in", T([T([I("a"), L("1")]), T([I("b"), L("2")])]))),
+        prog(M.cmp_(T([I("a"), T([I("b"), I("c")])]), "==", I("y"))),
+        prog(M.cmp_(I("y"), "in", T([T([L("1"), T([I("a")])]), L("2")]))),
+        prog(M.cmp_(I("x"), "not in", T([T([T([I("c")])])]))),
+        prog(M.cmp_(I("x"), "in", T([T([I("a"), L("1")]), T([I("b"), L("2")])])), splitters=["a"]),
+        prog(M.cmp_(I("x"), "in", T([T([I("uid"), L("1")])])), splitters=["uid"]),
+        prog(M.cmp_(I("x"), "==", T([I("index"), I("order_id")])), splitters=["order_id", "index"], salt="s"),
+        prog(M.and_(M.cmp_(T([I("a")]), "!=", T([I("b")])), M.not_(M.cmp_(I("x"), "in", T([I("c")])))), splitters=["c", "x"]),
+        # the experiment's own name as the only field, inside a tuple
+        prog(M.cmp_(L("1"), "in", T([I("exp"), L("2")]))),
+        prog(M.cmp_(I("y"), "in", I("x")), splitters=["y"]),
+    ]
+    for p in shapes:
+        fields = M.all_fields(p)
+        ins = []
+        for e in envs:
+            env = {f: e.get(f, 1) for f in fields}
+            if "exp" in fields:
+                env["exp"] = 1
+            ins.append(M.enc_inputs(env))
+        # container-typed right operand of `in`
+        if p["body"]["branches"][0][0].get("op") == "in" and p["body"]["branches"][0][0]["r"]["k"] == "id":
+            ins = [M.enc_inputs({"x": (1, 2), "y": 1}), M.enc_inputs({"x": [3], "y": 1})]
+        yield {"prog": p, "inputs": ins, "shape": "fixed"}
+
+
 def selftest():
     refgrammar.selftest()
 
@@ -167,6 +206,10 @@ def run(ctx, rec):
         if still:
             rec.known_finding("K1", "identifiers that are Python reserved words or helper names of the generated code do not "
                               "compile / evaluate (still failing for: %s)" % ", ".join(sorted(set(still))))
+    if ctx.shard == 0:
+        runner.direct_run(ctx, rec, "fixed-shapes", fixed_programs(), judge, known_filter=known_filter)
+        if rec.violations:
+            return
     runner.hyp_run(ctx, rec, "typed-programs", cases(), judge, ctx.n(500, 3000), known_filter=known_filter)
     if rec.violations:
         return
